@@ -133,9 +133,12 @@ struct CrcSim
         static const uint64_t KNOWN[4][4] = {{0x07, 0x31, 0x9B, 0x1D}, {0x8005, 0x1021, 0x3D65, 0x8BB7}, {0x04C11DB7u, 0x1EDC6F41u, 0x741B8CD7u, 0x814141ABu}, {0x42F0E1EBA9EA3693ull, 0x000000000000001Bull, 0xAD93D23594C935A9ull, 0x259C84CBA6426349ull}};
         uint64_t const ps = (uint64_t)p.knob("polyseed", 0);
         poly = (ps & 1) ? (splitmix64(ps) & wmask(w)) : KNOWN[mag64(p.knob("wsel", 2)) % 4][(ps >> 1) % 4];
+        switch (mag64(p.knob("polyedge", 0)) % 24) { case 1: poly = 0; break; case 2: poly = 1; break; case 3: poly = wmask(w); break; case 4: poly = 1ull << (w - 1); break; default: break; } // degenerate generators are generators too
+        if (poly == 0) c.st.add("probe.crc_zero_polynomial");
         uint64_t const is = (uint64_t)p.knob("initsel", 0);
         init = (is % 4 == 0) ? 0 : (is % 4 == 1) ? wmask(w) : (splitmix64(is) & wmask(w));
-        size_t const n = (size_t)(mag64(p.knob("msglen", 16)) % 301);
+        size_t n = (size_t)(mag64(p.knob("msglen", 16)) % 301);
+        if (p.knob("longmsg", 0)) { n = 65530 + (size_t)(mag64(p.knob("msglen", 16)) % 6000); c.st.add("probe.crc_message_longer_than_64k"); } // lengths that do not fit 16 bits
         uint64_t const ms = (uint64_t)p.knob("msgseed", 1);
         int const pat = (int)(mag64(p.knob("pattern", 0)) % 5);
         msg.resize(n); rmsg.resize(n);
@@ -330,6 +333,19 @@ struct UtfSim
                 if (!ok) okk = false;
                 else if (rp != 0) okk = c.fail("proper-prefix-accepted", "a_utf_decode", "the first %u of the %u bytes of U+%X decode with length %u", k, want, cp, rp);
             }
+            if (okk)
+            { // a stated length far larger than the sequence (the bytes behind it are never needed): same answer
+                static const size_t BIG[] = {7, 4096, (size_t)1 << 32, ((size_t)1 << 32) + 1, ((size_t)1 << 32) + 5, (size_t)1 << 33, (size_t)1 << 40, SIZE_MAX >> 1, SIZE_MAX - 1, SIZE_MAX};
+                unsigned char *g = gb.place(enc, want);
+                for (size_t big : BIG)
+                {
+                    if (big < want) continue;
+                    uint32_t v2 = 0; c.site("a_utf_decode");
+                    unsigned const r2 = a_utf_decode(g, big, &v2), r3 = a_utf_decode(g, big, nullptr);
+                    if (r2 != want || r3 != want || v2 != cp) { okk = c.fail("round-trip-failed", "a_utf_decode", "U+%X (%u bytes) with a stated length of %zu decodes as length %u / %u value U+%X", cp, want, big, r2, r3, v2); break; }
+                }
+                c.st.add("probe.stated_length_beyond_4GiB");
+            }
             bool ok2; if (okk) { uint32_t j; unsigned const rz = guarded_decode(enc, 0, &j, ok2); if (ok2 && rz != 0) okk = c.fail("proper-prefix-accepted", "a_utf_decode", "zero available bytes decode with length %u", rz); }
         }
         SA.hfree(enc);
@@ -401,11 +417,13 @@ struct UtfSim
     {
         SA.reset();
         corrupt_cfg = p.knob("corrupt", 0) != 0;
-        size_t const ncp = (size_t)(mag64(p.knob("ncp", 8)) % 41);
+        size_t const ncp = (size_t)(mag64(p.knob("ncp", 8)) % (p.knob("ascii", 0) ? 200 : 41));
         uint64_t const cs = (uint64_t)p.knob("cpseed", 1);
+        bool const ascii = p.knob("ascii", 0) != 0;
         for (size_t i = 0; i < ncp; ++i)
         {
             uint32_t cp = pick_cp(splitmix64(cs + i));
+            if (ascii) cp = 0x20 + (uint32_t)(splitmix64(cs + i) % 0x5F);
             cps.push_back(cp);
             unsigned char *enc = (unsigned char *)SA.halloc(6);
             c.site("a_utf_encode");
@@ -443,7 +461,8 @@ struct UtfSim
                 uint64_t v = mag64(o.a[0]);
                 unsigned char b;
                 switch (v % 5) { case 0: b = 0xFE; break; case 1: b = 0xFF; break; case 2: b = (unsigned char)(0x80 | (mag64(o.a[1]) & 0x3F)); break; case 3: b = (unsigned char)mag64(o.a[1]); break; default: b = 0; break; }
-                if ((v >> 3) & 1 && !rx.empty() && rpos < rx.size()) { size_t at = rpos + (size_t)(mag64(o.a[2]) % (rx.size() - rpos)); rx[at] ^= (unsigned char)(1u << (mag64(o.a[3]) % 8)); c.st.add("fault.bit_flip"); }
+                if (((v >> 3) & 3) == 1 && !rx.empty() && rpos < rx.size()) { size_t at = rpos + (size_t)(mag64(o.a[2]) % (rx.size() - rpos)); rx[at] ^= (unsigned char)(1u << (mag64(o.a[3]) % 8)); c.st.add("fault.bit_flip"); }
+                else if (((v >> 3) & 3) == 2 && !rx.empty()) { size_t at = (size_t)(mag64(o.a[2]) % rx.size()); if (at < rpos) at = rpos; if (at < rx.size()) { rx[at] = 0; c.st.add("fault.byte_zeroed"); } }
                 else { rx.push_back(b); c.st.add(b == 0xFE || b == 0xFF ? "fault.stray_FE_FF" : (b & 0xC0) == 0x80 ? "fault.stray_continuation_byte" : "fault.inserted_byte"); }
                 corrupted = true;
                 reader_poll();
@@ -492,14 +511,14 @@ struct StreamEngine : Engine
             p.set("sys", 0);
             p.set("wsel", (int64_t)r.below(4)); p.set("polyseed", (int64_t)r.below(1u << 30)); p.set("initsel", (int64_t)r.below(1u << 30));
             p.set("msglen", (int64_t)r.geolen(0, 300)); p.set("msgseed", (int64_t)r.below(1u << 30)); p.set("pattern", (int64_t)r.below(5));
-            p.set("prefill", (int64_t)r.below(6));
+            p.set("prefill", (int64_t)r.below(6)); p.set("polyedge", (int64_t)r.below(24)); p.set("longmsg", r.chance(1, 300));
             int64_t const nops = r.geolen(0, 40);
             for (int64_t i = 0; i < nops; ++i) { Op o; uint64_t k = r.below(8); o.kind = k < 6 ? X_FRAG : k == 6 ? X_EMPTY : X_REST; o.a[0] = (int64_t)r.below(100000); p.ops.push_back(o); }
         }
         else
         {
             p.set("sys", 1);
-            p.set("corrupt", r.chance(1, 3)); p.set("ncp", (int64_t)r.geolen(0, 40)); p.set("cpseed", (int64_t)r.below(1u << 30));
+            p.set("corrupt", r.chance(1, 3)); p.set("ascii", r.chance(1, 5)); p.set("ncp", (int64_t)r.geolen(0, p.knob("ascii") ? 199 : 40)); p.set("cpseed", (int64_t)r.below(1u << 30));
             bool const corrupt = p.knob("corrupt") != 0;
             int64_t const nops = r.geolen(1, 80);
             bool const with_trunc = r.chance(1, 3);
